@@ -78,6 +78,19 @@ class Sym:
             return ('num', str(self.n))
         if not self.d and z3.is_const(self.n) and self.n.decl().kind() == z3.Z3_OP_UNINTERPRETED:
             return ('var', self.n.decl().name())
+        # a product of symbols (possibly over symbols): it vanishes exactly where one of its numerator factors does
+        try:
+            coeff, atoms = self._as_atoms()
+        except Exception:
+            return None
+        names = []
+        for k in atoms:
+            t = Sym.ATOMS[k]
+            if not (z3.is_const(t) and t.decl().kind() == z3.Z3_OP_UNINTERPRETED):
+                return None
+            names.append(t.decl().name())
+        if names and coeff != 0:
+            return ('prod', ','.join(sorted(set(names))))
         return None
 
     @staticmethod
